@@ -72,6 +72,7 @@ pub fn run(spec: &Value) -> Result<Option<String>, String> {
         }
         "vmess_server" => crate::vmess::server_decode(spec, cfg, &mut src),
         "vmess_client" => crate::vmess::client_decode(spec, cfg, &mut src),
+        "vmess_body" => crate::vmess::body_decode(spec, cfg, &mut src),
         "vmess_read_address" => crate::vmess::read_address(&mut src),
         _ => return Err(format!("unknown decoder {decoder}")),
     };
